@@ -7,6 +7,7 @@
    ignored.  Destinations start as freshly initialised (value 0, one limb allocated). -/
 import Mpir.Proto
 import Mpir.Model.DivZ
+import Mpir.Model.SbDiv
 namespace Mpir.Ops.DivZ
 open Mpir Mpir.DivZ
 
@@ -103,12 +104,13 @@ def handleN : Handler
   | "mpn_tdiv_q", [.vec n, .vec d] => (mpnTdivQ n d).map (fun q => [.vec q])
   | "mpn_divrem", [.vec n, .vec d, .num qxn] => qrq (mpnDivrem n d qxn.toNat)
   | "mpn_sb_div_qr", [.vec n, .vec d] =>
-      -- limb-level model; `!modelspec` if it ever differed from the quotient/remainder contract
+      -- limb-level model Mpir.SbDiv.sb_div_qr (proved: MpirProofs/Props/C02_sb.lean), dinv by the model of mpir_invert_pi1;
+      -- `!modelspec` if it ever differed from the quotient/remainder contract
       if ¬ normalised d ∨ d.length < 3 ∨ n.length < d.length then none else
       let dn := d.length
-      let (q, arr, qh) := sb_div_qr n d (invert_pi1 (d.getD (dn - 1) 0) (d.getD (dn - 2) 0))
-      let out := [Tok.vec q, .vec (arr.take dn), natTok qh]
-      if some (q, arr.take dn, qh) == mpnDivQr 3 0 n d then some out else some (out ++ [.err "modelspec"])
+      let (q, r, qh) := Mpir.SbDiv.sb_div_qr n d (Mpir.DivWord.invert_pi1 (d.getD (dn - 1) 0) (d.getD (dn - 2) 0))
+      let out := [Tok.vec q, .vec r, natTok qh]
+      if some (q, r, qh) == mpnDivQr 3 0 n d then some out else some (out ++ [.err "modelspec"])
   | "mpn_dc_div_qr", [.vec n, .vec d] => qrq (mpnDivQr 6 3 n d)
   | "mpn_inv_div_qr", [.vec n, .vec d] => qrq (mpnDivQr 6 3 n d)
   | "mpn_sb_bdiv_q", [.vec n, .vec d] => (mpnSbBdivQ n d).map (fun (q, w) => [.vec q, .vec w])
